@@ -11,7 +11,7 @@
     the closed forms Jb(0) = -pi^4/45, Jf(0) = -7 pi^4/360 are hypotheses of [stefan_boltzmann]
     (validated numerically by the harness). *)
 From Coq Require Import Reals Lra List ZArith Bool Lia.
-From WG Require Import Lib.NumpySem Lib.ThermalTrig Lib.ThermalSum Lib.ThermalTables.
+From WG Require Import Lib.NumpySem Lib.ThermalTrig Lib.ThermalSum Lib.ThermalTables Lib.ThermalClosed.
 From GenC20 Require Integrands ThermalSumGen TabJb TabJf.
 Import ListNotations.
 Local Open Scope R_scope.
@@ -553,6 +553,21 @@ Theorem table_smooth_Jf :
   table_rough region_Jf_low (2 * (U / 10 ^ 3)) (3 * (U / 10)) JfRows.
 Proof. split; [apply smooth_sound; [lia|lia|]|apply rough_sound]; vm_compute; reflexivity. Qed.
 
+(** ** 4.5 the imaginary columns against the first-sheet closed forms (real-number statements):
+    Im Jb = pi (c^3/6 - x^2/32), c = sqrt(-x), for EVERY negative row of the Jb file (all of them
+    have x >= -20 > -4 pi^2), and Im Jf = pi x^2/32 for the rows with -9.8 <= x < 0 (> -pi^2),
+    to 1e-9.  (Below -pi^2 the Jf column carries the unresolved-kink noise, see the harness.) *)
+Theorem table_imag_closed_Jb : imag_closed_Jb JbRows.
+Proof. apply imag_closed_Jb_sound. vm_compute. reflexivity. Qed.
+Theorem table_imag_closed_Jf : imag_closed_Jf (-9800000000000000000000000000000) JfRows.
+Proof. apply imag_closed_Jf_sound. vm_compute. reflexivity. Qed.
+Definition in_first_sheet_Jf (r : row) : bool :=
+  ((-9800000000000000000000000000000 <=? rx r) && (rx r <? 0))%bool.
+Example imag_closed_nonempty :
+  (190 <= length (filter (fun r => (rx r <? 0)%Z) JbRows))%nat /\
+  (90 <= length (filter in_first_sheet_Jf JfRows))%nat.
+Proof. split; apply Nat.leb_le; vm_compute; reflexivity. Qed.
+
 (** non-vacuity: how many windows each region contains *)
 Fixpoint count_windows (region : Z -> Z -> bool) (rows : list row) : nat :=
   ((match rows with a :: _ :: _ :: _ :: e :: _ => if region (rx a) (rx e) then 1 else 0 | _ => 0 end) +
@@ -685,6 +700,10 @@ Print Assumptions tables_imag_column.
 Theorem tables_shape : table_shape JbRows /\ table_shape JfRows.
 Proof. exact (conj table_shape_Jb table_shape_Jf). Qed.
 Print Assumptions tables_shape.
+Theorem tables_imag_closed_form :
+  imag_closed_Jb JbRows /\ imag_closed_Jf (-9800000000000000000000000000000) JfRows.
+Proof. exact (conj table_imag_closed_Jb table_imag_closed_Jf). Qed.
+Print Assumptions tables_imag_closed_form.
 Theorem tables_smooth :
   table_smooth region_Jb (10 ^ 8) (10 ^ 8) 200 JbRows /\
   table_smooth region_Jf (5 * 10 ^ 8) (10 ^ 3) 200 JfRows /\
